@@ -105,6 +105,10 @@ static int parseConvertElement(MPT_INTERFACE(convertable) *conv, MPT_TYPE(type) 
 static const MPT_STRUCT(value) *parseValue(MPT_INTERFACE(iterator) *ptr)
 {
 	MPT_STRUCT(parseIterator) *d = MPT_baseaddr(parseIterator, ptr, _it);
+	/* all elements consumed */
+	if (!d->val) {
+		return 0;
+	}
 	return &d->elem.val;
 }
 static int parseAdvance(MPT_INTERFACE(iterator) *ptr)
